@@ -6,6 +6,8 @@ package pilosa_test
 
 import (
 	"bytes"
+	"os"
+	"strconv"
 	"context"
 	"encoding/binary"
 	"fmt"
@@ -65,6 +67,24 @@ type esrvEnv struct {
 	Nodes int
 }
 
+// esrvNodes is the cluster size requested through VERIF_ESRV_NODES (default 1):
+// the same API-level harness then runs against a real multi-node cluster.
+func esrvNodes() int {
+	if n, err := strconv.Atoi(os.Getenv("VERIF_ESRV_NODES")); err == nil && n > 1 {
+		return n
+	}
+	return 1
+}
+
+// fieldOn returns the Field object on a node that owns the column's shard.
+func (e *esrvEnv) fieldOn(index, field string, col uint64) *pilosa.Field {
+	o := e.owners(index, col/pilosa.ShardWidth)
+	if len(o) == 0 {
+		return nil
+	}
+	return o[0].Server.Holder().Field(index, field)
+}
+
 func esrvStart(t *testing.T, nodes int, pref string) *esrvEnv {
 	esrvInstallHook()
 	e := &esrvEnv{t: t, Nodes: nodes, pref: pref}
@@ -113,7 +133,17 @@ func (e *esrvEnv) createField(index string, f *mField, cacheType string, cacheSi
 	default:
 		return fmt.Errorf("bad field type %q", f.Type)
 	}
-	_, err := e.api().CreateField(context.Background(), index, f.Name, opt)
+	// boltdb opens the field's attribute store with a 1 s lock timeout; on a loaded machine a
+	// node may answer "opening storage: timeout" (not a property of interest here): try again
+	var err error
+	for attempt := 0; attempt < 5; attempt++ {
+		_, err = e.api().CreateField(context.Background(), index, f.Name, opt)
+		if err == nil || !strings.Contains(err.Error(), "opening storage: timeout") {
+			return err
+		}
+		_ = e.api().DeleteField(context.Background(), index, f.Name)
+		time.Sleep(200 * time.Millisecond)
+	}
 	return err
 }
 
